@@ -15,9 +15,9 @@ The semantic property that must hold for the unmodified code:
 
 Task: produce up to THREE different, independent source changes to files under /tmp/seed-{pid}/src/pynguin, each of which
   1. breaks the property above (a realistic bug a developer could introduce: an off-by-one, a dropped or reordered statement, a wrong comparison operator, a missing copy/reset/finally, a wrongly narrowed condition, two cooperating edits that each look fine alone ...) — not a gross sabotage;
-  2. still imports/compiles, and the existing test suite still passes with it: at the end run the whole suite `cd /tmp/seed-{pid} && PYTHONPATH=/tmp/seed-{pid}/src /venv/bin/python -m pytest -q -p no:cacheprovider --timeout=900 -x -q 2>&1 | tail -5` (about 1-2 minutes; the ~21 failures/17 errors in tests/large_language_model, tests/analyses/test_type_inference.py and tests/ga/algorithms/test_llmosalgorithm.py exist in the unmodified tree too and do not count — run without -x if they get in the way and compare the failing set with the unmodified tree via `git stash`);
+  2. still imports/compiles, and the existing test suite still passes with it: at the end run the whole suite `cd /tmp/seed-{pid} && PYTHONPATH=/tmp/seed-{pid}/src /venv/bin/python -m pytest -q -p no:cacheprovider --timeout=900 -x -q 2>&1 | tail -5` (about 1-2 minutes; the ~21 failures/17 errors in tests/large_language_model, tests/analyses/test_type_inference.py and tests/ga/algorithms/test_llmosalgorithm.py exist in the unmodified tree too and do not count — run without -x if they get in the way and compare the failing set with the unmodified tree by saving your diff to a file, `git checkout -- .`, and re-applying it with `git apply`; NEVER use `git stash`: the stash is shared between all worktrees of this repository and other people use them concurrently);
   3. needs something specific to manifest — a particular input, a multi-step sequence of operations, an unusual argument kind, a particular interleaving or fault — rather than failing on the very first ordinary use;
-  4. comes with a demonstration: a small standalone Python script demo.py (or pytest test) that exercises the real API, exits non-zero / fails WITH your change and exits zero / passes WITHOUT it (check both, using `git stash` or `git apply -R`).
+  4. comes with a demonstration: a small standalone Python script demo.py (or pytest test) that exercises the real API, exits non-zero / fails WITH your change and exits zero / passes WITHOUT it (check both, using `git apply -R patch.diff` / `git apply patch.diff`; never `git stash`).
 Make the three changes differ in kind and location (different functions / different mechanisms).
 
 For each change n = 1..3 write to /tmp/seed-{pid}-out/<n>/ : patch.diff (output of `git diff` for that change alone, applicable with `git apply` to the unmodified tree), demo.py, and notes.md (what it breaks, what it needs in order to manifest, the commands you ran and their results incl. the test-suite summary line). Leave the worktree clean at the end (`git checkout -- . && git status --short` empty). Reply with a short summary of the changes.""")
